@@ -11,7 +11,9 @@ LANGNAME = {"A": "English (en)", "B": "French (fr)", "Z": "Zulu (zu)"}
 ABS = {v: k for k, v in LANGNAME.items()}
 ABS["default"] = "default"
 COL = {"label": "label", "hint": "hint", "guidance": "guidance_hint", "cmsg": "constraint_message", "rmsg": "required_message", "noapp": "noAppErrorString", "image": "image", "audio": "audio"}
-QPATH = {"q1": ["q1"], "q2": ["g", "q2"], "g": ["g"], "s1": ["s1"], "s2": ["s2"], "s3": ["s3"]}
+# q2's concrete name contains the name of a translatable column (names are free text; they must not be mistaken for column tags)
+Q2NAME = "q2_guidance_hint_x"
+QPATH = {"q1": ["q1"], "q2": ["g", Q2NAME], "g": ["g"], "s1": ["s1"], "s2": ["s2"], "s3": ["s3"]}
 CHOICES = {"L.1": ("L", 0, "l1"), "L.2": ("L", 1, "l2"), "M.1": ("M", 0, "m1")}
 
 
@@ -53,16 +55,18 @@ def build(case, seed=0):
         {"type": "text", "name": "q0", "label": "Q0"} if refs else None,
         {"type": "text", "name": "q1", "constraint": ". != 'x'", "required": "yes"},
         {"type": "begin group", "name": "g"},
-        {"type": "text", "name": "q2", "constraint": ". != 'y'", "required": "yes"},
+        {"type": "text", "name": Q2NAME, "constraint": ". != 'y'", "required": "yes"},
         {"type": "end group"},
         {"type": "select_one L", "name": "s1"},
         {"type": "select_multiple L", "name": "s2"},
+        {"type": "select_one L", "name": "s4", "label": "S4 randomized", "parameters": "randomize=true"},
         {"type": "select_one M", "name": "s3", "appearance": "search('mfile')"},
     ]
     srows = [r for r in srows if r is not None]
     if refs:
         hdrs[("survey", "label", "")] = hdrs.get(("survey", "label", ""), "label")
     byname = {r.get("name"): r for r in srows}
+    byname["q2"] = byname[Q2NAME]
     crows = [{"list_name": "L", "name": "l1"}, {"list_name": "L", "name": "l2"}, {"list_name": "M", "name": "m1"}]
     for (e, k, L), t in cells.items():
         if e in CHOICES:
@@ -73,7 +77,7 @@ def build(case, seed=0):
     ch = sorted({h for (s, _, _), h in hdrs.items() if s == "choices"})
     rnd.shuffle(sh)
     rnd.shuffle(ch)
-    scols = ["type", "name", "constraint", "required", "appearance"] + sh
+    scols = ["type", "name", "constraint", "required", "appearance", "parameters"] + sh
     ccols = ["list_name", "name"] + ch
     sheets = [{"name": "survey", "header": scols, "rows": [[r.get(c) for c in scols] for r in srows]},
               {"name": "choices", "header": ccols, "rows": [[r.get(c) for c in ccols] for r in crows]}]
@@ -164,7 +168,20 @@ def observe(xform: str, src) -> dict:
             lab = None
             if lst in sec and sec[lst]["items"] is not None and idx < len(sec[lst]["items"]):
                 item = dict(sec[lst]["items"][idx])
-                if "itextId" in item:
+                # what each select that reads this list shows for the item: follow its itemset's label reference
+                shown = []
+                for c in body:
+                    its = c.get("itemset")
+                    if its and f"instance('{lst}')" in (its.get("nodeset") or ""):
+                        lref = its.get("label") or ""
+                        if lref == "jr:itext(itextId)":
+                            shown.append({"ref": f"jr:itext('{item['itextId']}')", "pieces": []} if "itextId" in item else None)
+                        else:
+                            shown.append({"ref": None, "pieces": [["t", item[lref]]]} if lref in item else None)
+                if shown:
+                    # every select must show it; report the first one that does not, else the common one
+                    lab = None if any(x is None for x in shown) else shown[0]
+                elif "itextId" in item:
                     lab = {"ref": f"jr:itext('{item['itextId']}')", "pieces": []}
                 elif "label" in item:
                     lab = {"ref": None, "pieces": [["t", item["label"]]]}
